@@ -45,6 +45,9 @@ func runC18(l *core.Ledger) {
 	// a one-way call that does not wait for the send registers no router: nothing would ever remove it
 	l.With(map[string]string{"C06-P3": "C18-Z1"}, func() { c06P3(l, findEntryPoints(l, r, "C06-P3")) })
 	l.With(map[string]string{"C09-W4": "C18-Z1"}, func() { c09W4(l, r) })
+	// "every request answered" includes the request that gets into the queue behind the sender's back
+	// at Close: drained by the sender, or answered by enqueue's re-check after the hand-off (C12-X4 re-run)
+	l.With(map[string]string{"C12-X4": "C18-Z1"}, func() { c12X4(l, r) })
 
 	// ---- Z2
 	table := map[string]string{
